@@ -1,7 +1,9 @@
 """tools/seed_store.py <ID> "<needs>" "<checks that catch it>" : copy a confirmed seeded change into /verif/seeded/<ID>/"""
 import json, os, shutil, subprocess, sys
 root = os.path.dirname(os.path.dirname(os.path.abspath(__file__)))
-sid, needs, caught = sys.argv[1], sys.argv[2], sys.argv[3]
+sid = sys.argv[1]
+needs = sys.argv[2] if len(sys.argv) > 2 else "-"
+caught = sys.argv[3] if len(sys.argv) > 3 else "-"
 wt = f"/tmp/wt/{sid}"
 dst = os.path.join(root, "seeded", sid)
 os.makedirs(dst, exist_ok=True)
@@ -30,6 +32,17 @@ for f in sorted(os.listdir("/tmp")):
         lines = open(os.path.join("/tmp", f)).read().splitlines()
         obl = sorted({l.split("obligation=")[1].split()[0] for l in lines if l.startswith("VIOLATION") and "obligation=" in l})
         det[c] = {"exit": 1 if obl else 0, "violated_obligations": obl[:12], "summary": lines[-1] if lines else ""}
+if needs == "-":
+    # the section of the author's notes that says what the violation needs
+    import re
+    notes = open(os.path.join(dst, "notes.md")).read()
+    for sec in re.split(r"\n(?=#+ )", notes):
+        h = sec.splitlines()[0].lower()
+        if "need" in h or "manifest" in h:
+            needs = " ".join(" ".join(sec.splitlines()[1:]).split())[:1200]
+            break
+if caught == "-":
+    caught = "; ".join(f"{c}: {', '.join(d['violated_obligations'][:4])}" for c, d in det.items() if d["exit"]) or "NOT CAUGHT"
 meta = {
     "property": sid,
     "files_touched": sorted({l[6:] for l in diff.splitlines() if l.startswith("+++ b/")}),
